@@ -3,6 +3,8 @@ package props
 import (
 	"errors"
 	"fmt"
+	"strconv"
+	"strings"
 
 	jpl "github.com/evanphx/json-patch"
 	jp "github.com/evanphx/json-patch/v5"
@@ -63,6 +65,104 @@ func c12Seq(c *core.Ctx, esc bool, legacy bool) *SeqCase {
 	cfg := &SeqCfg{Prof: prof, MinOps: 1, MaxOps: 8, MissRate: 6, ContinueAfterFail: false,
 		Kinds: []string{"copy", "copy", "copy", "copy", "add", "move", "replace", "test", "remove"}}
 	return GenSeq(c.R, cfg, o)
+}
+
+// c12AnySeq: documents in arbitrary spelling (escapes of every form, raw
+// < > & and U+2028/9, whitespace at every gap), so that the size of a copy
+// is not the length of its source text.
+func c12AnySeq(c *core.Ctx) *SeqCase {
+	strs := append([]string{}, gen.HostileStrings...)
+	long := ""
+	for i := 1 + c.R.Intn(60); i > 0; i-- {
+		long += []string{"<", "ab", "&", "é", ">", "xyz", "\u2028", " "}[c.R.Intn(8)]
+	}
+	strs = append(strs, long, "<", "a&b")
+	prof := gen.Hostile().With(func(p *gen.Profile) { p.Keys = c01Keys; p.Strings = strs; p.WS = 30; p.Spell = gen.SpellRandom })
+	cfg := &SeqCfg{Prof: prof, MinOps: 1, MaxOps: 7, MissRate: 6,
+		Kinds: []string{"copy", "copy", "copy", "copy", "add", "move", "replace", "test", "remove"}}
+	return GenSeq(c.R, cfg, ref.Opts{NegIdx: true})
+}
+
+// canonDest names the location at which a copy/add placed its value, as a
+// strict pointer into the document after the operation.
+func canonDest(after *jr.Value, path string) (string, bool) {
+	i := strings.LastIndex(path, "/")
+	if i < 0 {
+		return "", false
+	}
+	parent, tok := path[:i], path[i+1:]
+	pn := after.Resolve(parent)
+	if pn == nil {
+		return "", false
+	}
+	switch pn.K {
+	case jr.Obj:
+		return path, true
+	case jr.Arr:
+		n := len(pn.A)
+		if tok == "-" {
+			return parent + "/" + strconv.Itoa(n-1), true
+		}
+		if strings.HasPrefix(tok, "-") {
+			v, err := strconv.Atoi(tok)
+			if err != nil || n+v < 0 {
+				return "", false
+			}
+			return parent + "/" + strconv.Itoa(n+v), true
+		}
+		return path, true
+	}
+	return "", false
+}
+
+// outputSpellingSizes measures every accounted copy of the sequence "as it is
+// spelled in the output": the patch is applied up to and including that copy
+// (no limit, same options) and the length of the text found at the copy's
+// destination in the library's output is taken. A copied null may count 0 or 4.
+// ok is false when a prefix of an applicable sequence does not apply or the
+// destination is not found - deviations that the caller reports.
+func outputSpellingSizes(c *core.Ctx, sc *SeqCase, o V5Opts) (sizes [][2]int, why string) {
+	o.Limit = 0
+	want := ref.Eval(sc.Doc, sc.Ops, o.Ref())
+	e := ref.New(sc.Doc, o.Ref())
+	step := 0
+	for _, cp := range want.Copies {
+		if cp.Index == want.FailIndex {
+			sizes = append(sizes, [2]int{-1, -1})
+			continue
+		}
+		for step <= cp.Index {
+			e.Step(sc.Ops[step])
+			step++
+		}
+		pre := ApplyV5(sc.DocText, PatchText(sc.OpTexts[:cp.Index+1]), o, "")
+		c.Eval(1)
+		if pre.Panic != nil || pre.DecodeErr != nil || pre.Err != nil {
+			return nil, fmt.Sprintf("applying the applicable prefix of %d operations fails: %v", cp.Index+1, pre.Err)
+		}
+		root, err := jr.Parse(pre.Out)
+		if err != nil {
+			return nil, "output of the prefix is not JSON"
+		}
+		dest, ok := canonDest(e.Root, sc.Ops[cp.Index].Path)
+		if !ok {
+			return nil, "harness: destination of an accounted copy not resolvable in the reference"
+		}
+		node := root.Resolve(dest)
+		if node == nil {
+			return nil, "copied value not found at " + dest + " in the output of the prefix"
+		}
+		n := node.End - node.Off
+		if cp.Value.K == jr.Null {
+			sizes = append(sizes, [2]int{0, n})
+		} else {
+			sizes = append(sizes, [2]int{n, n})
+		}
+	}
+	if sizes == nil {
+		sizes = [][2]int{}
+	}
+	return sizes, ""
 }
 
 func chooseLimit(c *core.Ctx, lv limitVerdict) int64 {
@@ -144,6 +244,9 @@ func init() {
 					c.Violation("copy-accounted-that-reference-does-not-account", d)
 					return
 				}
+				if lv.Sizes[i][1] < 0 {
+					continue // size unknown: the copy is inapplicable for another reason
+				}
 				if e.Size < lv.Sizes[i][0] || e.Size > lv.Sizes[i][1] || (e.Size != lv.Sizes[i][0] && e.Size != lv.Sizes[i][1]) {
 					c.Violation("copy-size-differs-from-output-spelling", d)
 					return
@@ -211,6 +314,9 @@ func init() {
 			if m.Counts["limit:enforced"] < 200 || m.Counts["limit:not-reached"] < 200 {
 				out = append(out, "limit enforced / not reached fewer than 200 times each")
 			}
+			if m.Counts["any-spelling:judged"] < 1000 || m.Counts["per-call-vs-default:judged"] < 1000 {
+				out = append(out, "arbitrary-spelling / per-call-vs-default families judged fewer than 1000 cases")
+			}
 			if m.Counts["legacy:limit:enforced"] < 50 {
 				out = append(out, "legacy limit enforced fewer than 50 times")
 			}
@@ -223,6 +329,50 @@ func init() {
 				o := V5Opts{NegIdx: true, EscapeHTML: esc}
 				o.Limit = chooseLimit(c, evalWithLimit(sc, o))
 				judgeV5(c, sc, o, false)
+			}},
+			{Name: "v5-any-spelling", Count: n(20000, 400000), Run: func(c *core.Ctx, idx int) {
+				// sizes are taken from the library's own output spelling, so documents need not be encoder-spelled
+				sc := c12AnySeq(c)
+				o := V5Opts{NegIdx: true, EscapeHTML: c.R.Intn(2) == 0}
+				sizes, why := outputSpellingSizes(c, sc, o)
+				if why != "" {
+					if strings.HasPrefix(why, "harness:") {
+						c.Inconclusive(why)
+						return
+					}
+					d := sc.Describe()
+					d["options"] = o.String()
+					d["why"] = why
+					c.Violation("copy-destination-not-as-in-reference", d)
+					return
+				}
+				sc.CopySizes = sizes
+				o.Limit = chooseLimit(c, evalWithLimit(sc, o))
+				judgeV5(c, sc, o, false)
+				c.Count("any-spelling:judged")
+			}},
+			{Name: "v5-per-call-limit-vs-package-default", Count: n(8000, 160000), Run: func(c *core.Ctx, idx int) {
+				// the per-call option decides alone: whatever the package default is while the call runs
+				// (options were created before it changed, or were given a limit of their own, 0 included)
+				esc := c.R.Intn(2) == 0
+				sc := c12Seq(c, esc, false)
+				o := V5Opts{NegIdx: true, EscapeHTML: esc}
+				lv := evalWithLimit(sc, o)
+				o.Limit = chooseLimit(c, lv)
+				if c.R.Intn(2) == 0 {
+					o.Limit = 0
+				}
+				saved := jp.AccumulatedCopySizeLimit
+				jp.AccumulatedCopySizeLimit = []int64{1, 5, 1000000000}[c.R.Intn(3)]
+				if len(lv.Hi) > 0 && c.R.Intn(2) == 0 {
+					jp.AccumulatedCopySizeLimit = lv.Hi[c.R.Intn(len(lv.Hi))] - 1 + int64(c.R.Intn(3))
+				}
+				if jp.AccumulatedCopySizeLimit < 1 {
+					jp.AccumulatedCopySizeLimit = 1
+				}
+				c.Count("per-call-vs-default:judged")
+				judgeV5(c, sc, o, false)
+				jp.AccumulatedCopySizeLimit = saved
 			}},
 			{Name: "v5-package-default", Count: n(10000, 200000), Run: func(c *core.Ctx, idx int) {
 				sc := c12Seq(c, true, false)
